@@ -1055,6 +1055,42 @@ impl Tuple {
         Ok(())
     }
 
+    /// Overwrites one value of the newest version in place, without creating a new version.
+    ///
+    /// Only for bookkeeping values that are not versioned data (a counter every snapshot may see
+    /// at its newest). The value must be present and keep its serialized size; returns `false`,
+    /// leaving the tuple untouched, when that is not the case.
+    pub(crate) fn overwrite_value_with(
+        &mut self,
+        index: usize,
+        value: &DataType,
+        schema: &Schema,
+    ) -> TupleResult<bool> {
+        let col = schema.value(index).ok_or(TupleError::ValueError(index))?;
+        if value.is_null() || col.datatype() != value.kind() {
+            return Err(TupleError::DataTypeMismatch((index, col.datatype())));
+        }
+
+        let reader = TupleReader::from_schema(schema);
+        let layout = reader.parse_last_version(self.data.effective_data())?;
+        let offset = {
+            let current = TupleRef::new(self.data.effective_data(), layout.clone());
+            let Some(old) = current.value_with(index, schema)?.to_owned() else {
+                return Ok(false);
+            };
+            if old.is_null() || old.runtime_size() != value.runtime_size() {
+                return Ok(false);
+            }
+            *layout
+                .value_offsets
+                .get(index)
+                .ok_or(TupleError::ValueError(index))?
+        };
+
+        value.write_to(self.data.effective_data_mut(), offset)?;
+        Ok(true)
+    }
+
     fn validate_modifications(
         &self,
         modified: &HashMap<usize, DataType>,
